@@ -22,6 +22,7 @@ ASSUMPTIONS = ["datetime.datetime field validation is modelled by symex.symdate.
 REACH = {"to_oa", "to_date", "arith"}
 PATH_SECONDS = 120
 MAX_DECISIONS = 200000
+MAX_FOLDED = 20000000
 
 BASE = _dt.date(1899, 12, 30).toordinal()
 QUICK_YEARS = [1900, 1901, 1903, 1904, 1969, 1970, 1971, 1972, 1999, 2000, 2001, 2024, 2099,
